@@ -32,7 +32,7 @@ SPEC = {
                          'waiters_made_infeasible_mid_pass': 100, 'clock_advances_checked': 5000},
                'thorough': {'callbacks_judged': 90000, 'passes_with_2plus_callbacks': 9000,
                             'waiters_made_infeasible_mid_pass': 3000, 'clock_advances_checked': 150000}},
-    'assumptions': ['amounts on the dyadic grid', 'requests contain non-negative amounts of 1-2 resources'],
+    'assumptions': ['amounts on the dyadic grid (exact oracle) or one-decimal (three-valued fit: a margin within 1e-9 of zero is judged for self-consistency only)', 'requests contain non-negative amounts of 1-2 resources'],
     'timeout_s': {'quick': 900, 'thorough': 7200},
 }
 
